@@ -31,6 +31,7 @@ func main() {
 		list    = flag.Bool("list", false, "list properties and obligations")
 		noSelf  = flag.Bool("noselftest", false, "thorough: skip the rule liveness self-test")
 		dump    = flag.String("dump", "", "debug: print the CFG of the named function and exit")
+		dumpPar = flag.Bool("dumpparams", false, "maintenance: print the parameter-name table of the module's functions (frozen in paramtable.go)")
 	)
 	flag.Parse()
 
@@ -50,6 +51,15 @@ func main() {
 		return
 	}
 
+	if *dumpPar {
+		abs, _ := filepath.Abs(*repo)
+		p, err := LoadProgram(abs, "", nil)
+		if err != nil {
+			fatal("%v", err)
+		}
+		dumpParams(p)
+		return
+	}
 	if *dump != "" {
 		abs, _ := filepath.Abs(*repo)
 		p, err := LoadProgram(abs, "", nil)
@@ -136,6 +146,9 @@ func main() {
 	selftest := map[string]any{}
 	if *tier == "thorough" && !*noSelf && only == nil {
 		selftest = runSelfTest(p0, prop, results)
+		for k, v := range runStabilityTest(p0, prop, funcs) {
+			selftest[k] = v
+		}
 	}
 
 	// output
@@ -170,6 +183,11 @@ func main() {
 		// raise an alarm.
 		for _, s := range st {
 			fmt.Printf("selftest: not killed: %s\n", s)
+		}
+	}
+	if st, ok := selftest["stability_failures"].([]string); ok && len(st) > 0 {
+		for _, s := range st {
+			fmt.Printf("stability: rule not stable under a behaviour-preserving rewrite: %s\n", s)
 		}
 	}
 	wall := time.Since(start).Seconds()
